@@ -47,7 +47,7 @@ AFTER = {
     "C07-r4": "reported by C07.R9, written before the seed; it became decidable only after `abs` got a model in V (before: undecided)",
     "C04-r4": "reported by C05.R2 (XCHG as exact data movement), which existed before this seed; no rule of C04 looks at XCHG's write-back",
     "C08-r4": "first reported by C11.R6 only (an accepted path that emits no line); the `emits-conditionally` clause of C08.R2 was added after this seed",
-    "C09-r4": "reported by C04.R3 (address below 1 MB), which existed before this seed; C09's own bounds census leaves the joined address [0, 2^20] undecided",
+    "C09-r4": "first reported by C04.R3 (and C05/C07 lane rules) only; C09.R4 (the address helper's paths enumerated one by one) was added after this seed",
     "C20-r1": "caught through C17.R3 (the print range rule), which was extended after this seed; no rule of C20 decides it",
 }
 # alarms of other properties' checks on this seed, judged one by one
@@ -64,6 +64,8 @@ CROSS = {
     ("C04-r1", "C07"): "genuine: the same address helper gives the string elements' cells; at FFFFh:0010h the element is addressed outside the 1 MB space (C07: elements at DS:SI / ES:DI)",
     ("C04-r4", "C05"): "genuine: XCHG word [mem],reg stores the register's bytes in the wrong order (C05: XCHG is an exact exchange)",
     ("C09-r4", "C04"): "genuine: calculate_from_offset yields exactly 2^20 for seg*16+off = 100000h (C04: the physical address is below 2^20)",
+    ("C09-r4", "C05"): "genuine: the stack cell of PUSH/POP is no longer (16*SS+SP) mod 2^20 when the sum is exactly 2^20",
+    ("C09-r4", "C07"): "genuine: the string elements' cells are computed by the same helper (element addressed outside the 1 MB space)",
     ("C08-r4", "C11"): "genuine: a source instruction produces no emitted line (C11: one emitted line per source instruction)",
     ("C01-r3", "C10"): "genuine: the assembler emits a 16-bit immediate for `add word label, 300`, which the interpreter form no longer accepts (C10's containment)",
     ("C07-r3", "C09"): "genuine: `cx as i16 - 1` overflows for CX = 8000h: an arithmetic abort inside the interpreter (C09)",
